@@ -1,4 +1,5 @@
 import MJ.Proofs.Bal
+import MJ.Proofs.Nested
 /-!
 # C05 — scoped constructs restore scope, capture and escape state on every path
 
@@ -118,5 +119,78 @@ theorem bareBreak_gets_stuck : ¬ Balanced bareBreak := by
       .tail r4 (l := [⟨5, [.withF, .loopF true none none], 0, 0⟩]) (by decide) (by simp)
     exact .tail r5 (l := [⟨8, [.withF, .loopF true none none], 0, 0⟩]) (by decide) (by simp)
   exact (h 0 (by decide) _ hr).1 (by decide)
+
+/-! ## Nested evaluations give the execution state back on success AND on failure -/
+
+open MJ.Nested in
+/-- `nested_restores` (model `MJ/Model/Nested.lean` of `with_execution_state`, `eval_macro`
+(= `Macro::call`, `State::call_macro`), `call_block` (= `CallBlock`, `State::render_block`),
+`perform_super`, `perform_include`): for every wrapper and for BOTH outcomes of the nested run —
+the statements do not mention the result — frames, recursion depth, instructions, auto-escape mode,
+current block, block table and loaded templates afterwards are what they were before.  Macro calls
+and `render_block` write into an `Output` of their own, so the caller's capture stack is untouched;
+the instruction-driven wrappers share the `Output` and leave its capture depth as it was when the
+nested run ends normally.
+
+Hypotheses on the nested run (an arbitrary function otherwise): it only pushes frames on top of
+the ones it found — what `checkCert_sound` gives for a certified stream — (an included template may
+also set the closure of the frame it starts on), nested includes give their recursion cost back,
+`LoadBlocks` only lets block stacks grow (macro calls) / does not occur (blocks, `super()`), and a
+normal exit leaves the capture depth alone (`checkCert_sound` again).  Nothing is assumed about
+what the nested run does to the auto-escape mode, the instructions, the current block or — for macro
+calls — the frame stack and the depth. -/
+theorem nested_restores :
+    (∀ instr cost limit base closureF body, BlocksGrow body → ∀ s o,
+      Same (macroCall instr cost limit base closureF body s o).2.1 s ∧
+      (macroCall instr cost limit base closureF body s o).2.2 = o) ∧
+    (∀ name limit required newFrame body, FramesOnTop body → KeepsOuter body → NoLoad body → ∀ s o,
+      Same (renderBlock name limit required newFrame body s o).2.1 s ∧
+      (renderBlock name limit required newFrame body s o).2.2 = o) ∧
+    (∀ name limit required newFrame body, FramesOnTop body → KeepsOuter body → NoLoad body → ∀ s o,
+      Same (callBlock name limit required newFrame body s o).2.1 s ∧
+      (BalancedOnOk body → (callBlock name limit required newFrame body s o).1 = .ok →
+        (callBlock name limit required newFrame body s o).2.2.caps = o.caps)) ∧
+    (∀ limit capture newFrame body, FramesOnTop body → KeepsOuter body → NoLoad body → ∀ s o,
+      Same (performSuper limit capture newFrame body s o).2.1 s) ∧
+    (∀ instr tmplAe cost limit newBlocks body, TopClosureOnly body → KeepsOuter body → ∀ s o,
+      Same (performInclude instr tmplAe cost limit newBlocks body s o).2.1 s ∧
+      (BalancedOnOk body → (performInclude instr tmplAe cost limit newBlocks body s o).1 = .ok →
+        (performInclude instr tmplAe cost limit newBlocks body s o).2.2.caps = o.caps)) :=
+  ⟨fun instr cost limit base closureF body hb s o =>
+      macroCall_restores instr cost limit base closureF body hb s o,
+   fun name limit required newFrame body hf ho hn s o =>
+      renderBlock_restores name limit required newFrame body hf ho hn s o,
+   fun name limit required newFrame body hf ho hn s o =>
+      ⟨callBlock_restores name limit required newFrame body hf ho hn s o,
+       fun hc hok => callBlock_caps name limit required newFrame body hc s o hok⟩,
+   fun limit capture newFrame body hf ho hn s o =>
+      performSuper_restores limit capture newFrame body hf ho hn s o,
+   fun instr tmplAe cost limit newBlocks body hf ho s o =>
+      ⟨performInclude_restores instr tmplAe cost limit newBlocks body hf ho s o,
+       fun hc hok => performInclude_caps instr tmplAe cost limit newBlocks body hc s o hok⟩⟩
+
+/-- the hypotheses are satisfiable by a body that really does something and fails: it pushes two
+frames, switches auto-escaping, changes instructions and current block, opens a capture — and
+returns `Err` -/
+example : ∃ body : MJ.Nested.Body,
+    MJ.Nested.FramesOnTop body ∧ MJ.Nested.KeepsOuter body ∧ MJ.Nested.NoLoad body ∧
+    MJ.Nested.BlocksGrow body ∧ (∀ s o, (body s o).1 = .err) ∧
+    (∀ s o, (body s o).2.1.frames ≠ s.frames) :=
+  ⟨fun s o => (.err, { s with frames := ⟨7, none⟩ :: ⟨8, some 1⟩ :: s.frames, autoEscape := s.autoEscape + 1,
+                              instructions := 99, currentBlock := some 5 }, ⟨o.caps + 1⟩),
+   fun s _ => ⟨[⟨7, none⟩, ⟨8, some 1⟩], rfl⟩, fun _ _ => rfl, fun _ _ => ⟨rfl, rfl⟩,
+   fun s _ n b h => ⟨b, h, by simp⟩, fun _ _ => rfl,
+   fun s _ h => by
+     have := congrArg List.length h
+     simp at this
+     omega⟩
+
+/-- the model tells the two apart: with the nested run of `eval_macro` wrapped in `ok!(..)` (early
+return on `Err`, before the caller's context is swapped back) the caller's frames are NOT restored -/
+theorem earlyReturn_is_not_a_restore :
+    ∃ (body : MJ.Nested.Body) (s : MJ.Nested.St),
+      (MJ.Nested.evalMacroEarlyReturn 7 4 500 ⟨100, none⟩ ⟨101, none⟩ body s).1 = .err ∧
+      ¬ MJ.Nested.Same (MJ.Nested.evalMacroEarlyReturn 7 4 500 ⟨100, none⟩ ⟨101, none⟩ body s).2 s :=
+  MJ.Nested.earlyReturn_does_not_restore
 
 end MJ.C05
